@@ -53,6 +53,18 @@ SPECS = [
         serves=['C13', 'C04'],
     ),
     dict(
+        id='S-OnError-interp-attribute',
+        # "replaced by its start tag with the STATIC attributes": an attribute written with ${...} is
+        # not static -- its source text never appears in the fallback's start tag
+        text='A<a href="${e2}" class="c" tal:on-error="e11">%s</a>B' % H1,
+        own_names=['error'],
+        ensures=[
+            "not (raised('h1') or raised('e2')) or S() == S0() + 'A<a class=\"c\">' + ('' if quoted(val(11), None, '\\xad', None, None) is None else piece(quoted(val(11), None, '\\xad', None, None))) + '</a>B'",
+        ],
+        raises={'*': {'ensures': ["True"]}},
+        serves=['C13'],
+    ),
+    dict(
         id='S-OnError-static-body',
         # the guarded element evaluates nothing itself: the failure comes from behind a call (an
         # in-template macro).  It is guarded all the same.
